@@ -22,6 +22,8 @@ def file_args(t, m, c, extra):
 def build(desc, s):
     n = desc["targets"]
     names = ["t%d" % i for i in range(n)]
+    if desc.get("nested"):
+        names = ["t0"] + ["t0/sub%d" % i for i in range(1, n)]   # every further target is nested in the first
     cmds = desc["commands"]
     targets = []
     for ti_, t in enumerate(names):
@@ -78,6 +80,11 @@ def build(desc, s):
                 body = {"other": ["zzz"]}
             else:
                 body = {c: file_args(t, m, c, desc["vocab"].get(m, [])) for c in cmds}
+                if desc.get("nested") and ti == 0:
+                    # keys that spell "<rest of a nested target's path>/<command>": they name no command of t0
+                    for i_ in range(1, n):
+                        for c in cmds:
+                            body["sub%d/%s" % (i_, c)] = ["--belongs-to-no-command"]
             r.write(os.path.join(adir, (MNAME[m] if desc.get("dotted") else m) + ".json"), json.dumps(body))
         fi = 0 if shared else ti
         for c in cmds:
@@ -237,6 +244,15 @@ def scenarios(tier):
             files = [{"base": "args", "m1": "args", "m2": None}, {"base": "args", "m1": "nocmd", "m2": "args"}]
             out.append({"targets": 2, "commands": ["build", "test"], "files": files, "argmaps_opt": ["m1", "m2"], "no_base": False,
                         "args": None, "argdir": argdir, "cmdsrc": cmdsrc, "vocab": plain, "foreign": True})
+    # (2k) nested targets; the outer target's argmaps carry keys of the form <nested dir>/<command>
+    for o in (None, ["m1"]):
+        for sel in (None, "explicit"):
+            files = [{"base": "args", "m1": "args", "m2": None}] * 3
+            d_ = {"targets": 3, "commands": ["build", "test"], "files": files, "argmaps_opt": o, "no_base": False,
+                  "args": None, "argdir": "default", "cmdsrc": "default", "vocab": plain, "nested": True}
+            if sel:
+                d_["select"] = sel
+            out.append(d_)
     # (2j) argmap names that contain a dot (v1.2, ci.linux), with decoy files named after the part before the dot
     for argdir in ("default", "custom"):
         for o in (["m1"], ["m2", "m1"], ["m1", "missing"]):
